@@ -18,7 +18,9 @@ OneVia == {"set"}
 NoKeys == {}
 (* values are tags: "abs" (absent), scalars "v1" "v2", objects "obj0" {} / "obj1" {f:1} / "obj2" {f:2} *)
 IsObj(v) == v \in {"obj0", "obj1", "obj2"}
-SetVals(k) == IF k = "o" THEN {"v1", "obj0"} ELSE {"v1", "v2"}
+(* two-level objects "objg0" {g:{}} / "objg1" {g:{f:1}} / "objg2" {g:{f:2}}: written through the three-segment path k.g.f *)
+IsDeep(v) == v \in {"objg0", "objg1", "objg2"}
+SetVals(k) == IF k = "o" THEN {"v1", "obj0", "objg0"} ELSE {"v1", "v2"}
 
 VARIABLES data,    \* ideal store
           snaps,   \* ideal: stack of snapshots
@@ -63,6 +65,7 @@ Set(k, v) == /\ data' = [data EXCEPT ![k] = v] /\ adata' = [adata EXCEPT ![k] = 
 
 (* set_nested("k.f", x): logs the top-level key, fails without effect unless k holds an object *)
 SetNested(k, x) ==
+    /\ ~IsDeep(data[k])                   \* (k.f on a two-level object would leave the value universe of this model)
     /\ logs' = LogTop(k) /\ UNCHANGED snaps
     /\ IF IsObj(data[k])
        THEN /\ data' = [data EXCEPT ![k] = IF x = 1 THEN "obj1" ELSE "obj2"]
@@ -70,6 +73,16 @@ SetNested(k, x) ==
             /\ last' = [op |-> "setnested", k |-> k, x |-> x, ok |-> TRUE]
        ELSE /\ UNCHANGED <<data, adata>>
             /\ last' = [op |-> "setnested", k |-> k, x |-> x, ok |-> FALSE]
+
+(* set_nested("k.g.f", x): logs the top-level key, fails without effect unless k holds an object with an object under g *)
+SetDeep(k, x) ==
+    /\ logs' = LogTop(k) /\ UNCHANGED snaps
+    /\ IF IsDeep(data[k])
+       THEN /\ data' = [data EXCEPT ![k] = IF x = 1 THEN "objg1" ELSE "objg2"]
+            /\ adata' = [adata EXCEPT ![k] = IF x = 1 THEN "objg1" ELSE "objg2"]
+            /\ last' = [op |-> "setdeep", k |-> k, x |-> x, ok |-> TRUE]
+       ELSE /\ UNCHANGED <<data, adata>>
+            /\ last' = [op |-> "setdeep", k |-> k, x |-> x, ok |-> FALSE]
 
 RemoveKey(k) == /\ data' = [data EXCEPT ![k] = "abs"] /\ adata' = [adata EXCEPT ![k] = "abs"]
                 /\ logs' = LogTop(k) /\ UNCHANGED snaps
@@ -79,6 +92,7 @@ Next == /\ nops' = nops + 1
         /\ \/ Begin \/ Commit \/ Rollback
            \/ \E k \in Keys : \E v \in SetVals(k) : Set(k, v)
            \/ \E k \in NestKeys : \E x \in {1, 2} : SetNested(k, x)
+           \/ \E k \in NestKeys \cap {"o"} : \E x \in {1, 2} : SetDeep(k, x)
            \/ \E k \in RemKeys : RemoveKey(k)
 Spec == Init /\ [][Next]_vars
 
